@@ -179,8 +179,12 @@ impl<Wr: Write> Serializer for XmlSerializer<Wr> {
     /// Serializes given end element into text.
     fn end_elem(&mut self, name: QualName) -> io::Result<()> {
         self.namespace_stack.pop();
+        // The name was declared (if necessary) by the start tag.  It must not be
+        // registered again here: the scope of the element is already gone, and an
+        // entry in the parent's scope would suppress the declaration that a
+        // following sibling with the same prefix needs.
         self.writer.write_all(b"</")?;
-        self.qual_name(&name)?;
+        write_qual_name(&mut self.writer, &name)?;
         self.writer.write_all(b">")
     }
 
